@@ -248,6 +248,12 @@ def cases(tier, seed=0):
     for v in ('orthogonal', 'tilted'):
         cs.append(Case(f'displacement_boxes_{v}', h_displacement_boxes(v), bind=BIND, kernels=KER, maxcases=32, budget_s=120, timeout_ms=30000,
                        descr=f'displacement uses the chosen reference system\'s box and pbc ({v} cells, systems differ in both)'))
+    # general (not LAMMPS-oriented) 3x3 cells: the scalar distance against the vector one, and the candidates of a single periodic direction
+    for pbc in ((True, False, False), (False, True, True)) if tier == 'quick' else [p_ for p_ in PBCS if sum(p_) in (1, 2)]:
+        cs.append(Case(f'dmagG_{pstr(pbc)}', h_img(pbc, True, 0, 1, 1, 1, with_dmag=True), bind=BIND, kernels=KER, maxcases=32,
+                       budget_s=170, timeout_ms=30000 if tier == 'quick' else 120000, descr=f'general 3x3 cell, pbc {pstr(pbc)}: dmag^2 == |dvect|^2'))
+    cs.append(Case('imgG_quick_FTF', h_img((False, True, False), True, 0, 1, 1, 1), bind=BIND, kernels=KER, maxcases=32, budget_s=170, timeout_ms=60000,
+                   descr='general 3x3 cell, one periodic direction: the three candidates'))
     if tier == 'thorough':
         for pbc in PBCS:
             npb = sum(pbc); nparts = {3: 27, 2: 9, 1: 1, 0: 1}[npb]
